@@ -170,6 +170,11 @@ class SymTeam:
             raise UncutLoop(f"sum of non-numbers over a team: {tmpl!r}")
         t = v.t
         names = self.member_names()
+        if getattr(c, "mode", "R") == "U":
+            why = getattr(c, "split_roots", {}).get(id(self.root))
+            if why:
+                raise UncutLoop(f"sum over team {self.index} after a loop whose body branched on a member's values ({why})")
+            return self._usum(t, "usum")
         why = getattr(c, "split_roots", {}).get(id(self.root))
         if why:
             raise UncutLoop(f"sum over team {self.index} after a loop whose body branched on a member's values ({why}): the members no longer share one result term")
@@ -190,6 +195,24 @@ class SymTeam:
         c.events.append(("team-sum", self.index))
         r = z3.simplify(A * z3.ToReal(self.L) + B * self.theta.t + C * self.s.t)
         return SymNum(r, KFLOAT)
+
+
+def _usum_name(team, kind, *terms):
+    import hashlib
+    key = "|".join(z3.simplify(t).sexpr() for t in terms)
+    return f"{kind}!{team.tag}{team.index}!{hashlib.md5(key.encode()).hexdigest()[:16]}"
+
+
+def _usum(self, t, kind, *more):
+    """U-mode (uninterpreted IEEE operations): the left-to-right float sum over the members is a
+    deterministic function of the team and of the member-wise term, and nothing more is known about
+    it.  It is a constant named after the *syntactic* template (not an uninterpreted function of the
+    template's value: a path condition about the arbitrary member must not equate two sums), so two
+    executions agree on it exactly when they sum the same term over the same team."""
+    return SymNum(z3.Real(_usum_name(self, kind, t, *more)), KFLOAT)
+
+
+SymTeam._usum = _usum
 
 
 class TeamView:
@@ -383,6 +406,11 @@ def _is_addition(g):
     except Exception:  # noqa: BLE001
         return False
     if r is None:
+        return False
+    want = a + b                      # the current algebra's addition (fadd in U-mode)
+    if z3.eq(z3.simplify(r.t), z3.simplify(want.t)):
+        return True
+    if getattr(c, "mode", "R") == "U":
         return False
     d = z3.simplify(r.t - (a.t + b.t))
     return z3.is_rational_value(d) and d.numerator_as_long() == 0
@@ -587,6 +615,18 @@ class Fold:
                     continue
                 if str(a0.t) not in _free(a1.t):
                     out.append(Poison(f"`{n}` after a loop over a team (the last member's value)"))
+                    continue
+                if getattr(c, "mode", "R") == "U":
+                    # v = fadd(v, d): the float fold over the members is a deterministic function of the
+                    # entry value, the team and the member-wise term d
+                    ch = a1.t.children() if z3.is_app(a1.t) and a1.t.decl().name() == "fadd" else []
+                    dd = [x for x in ch if not z3.eq(x, a0.t)]
+                    if len(ch) != 2 or len(dd) != 1 or (_free(dd[0]) & hv_names):
+                        raise UncutLoop(f"{self.key}: `{n}` is not updated by adding a member-wise term (uninterpreted float arithmetic)")
+                    if forked:
+                        raise UncutLoop(f"{self.key}: `{n}` accumulates over the members in a loop whose body branches on a member's values ({forked})")
+                    ent = SymNum.lift(self.entry[n])
+                    out.append(_root_team(self.it)._usum(dd[0], "ufold", ent.t))
                     continue
                 d = z3.simplify(z3.substitute(a1.t, (a0.t, z3.RealVal(0))))
                 if _free(d) & hv_names:
